@@ -259,7 +259,7 @@ def values_writers(ctx, tk):
         for sub in ast.walk(f.node):
             if isinstance(sub, ast.Attribute) and isinstance(sub.ctx, ast.Store) and sub.attr == "_values" and isinstance(sub.value, ast.Name) \
                     and f.params and sub.value.id == f.params[0]:
-                ctx.decide("C12.e", f, "only the designated operations replace the counts/values", f.name in VALUES_WRITERS,
+                ctx.decide("C12.e", f, "only the designated operations replace the counts/values", f.name in VALUES_WRITERS or f.qual in tk.ctor_helpers(),
                            "%s re-assigns _values" % q, node=sub, engine="E3")
 
 
